@@ -217,6 +217,12 @@ def check_C09(tier, seed):
     for i, e in enumerate(sub):
         for j in range(3):
             cases.append({"id": "role-%05d-%d" % (i, j), "family": "roles-x-options", "S": e["S"], "opts": ov[(i * 3 + j * 17) % len(ov)]})
+    vdef = {"name": "Particle", "members": [{"name": "pos", "ty": F.VEC4, "io": {"k": "loc", "n": 0}}, {"name": "vel", "ty": F.VEC4, "io": {"k": "loc", "n": 1}}]}
+    ventry = {"name": "vs_main", "stage": "vertex", "params": [{"k": "struct", "name": "p", "ty": "Particle"}], "result": {"k": "builtin", "b": "position"}, "body": [], "wg": []}
+    for j, o_ in enumerate([F.opts(bmh=True), F.opts(enc=True, mv="glam"), F.opts(bmv=True, bmh=True, serde=True)]):
+        for k_, gl in enumerate([[], [{"name": "particles", "space": "storage_r", "group": "0", "binding": "0", "ty": {"k": "array", "n": 4, "e": {"k": "struct", "name": "Particle"}}}], []]):
+            cases.append({"id": "samedecl-%d-%d" % (j, k_), "family": "roles-x-options", "opts": o_,
+                          "S": {"structs": [vdef], "globals": gl, "consts": [], "overrides": [], "functions": [], "entries": [ventry]}})
     huge = {"structs": [{"name": "Huge", "members": [{"name": "m", "ty": {"k": "array", "n": 16385, "e": {"k": "mat", "c": 4, "r": 4, "s": "f32"}}}]},
                         {"name": "Outer", "members": [{"name": "h", "ty": {"k": "struct", "name": "Huge"}}, {"name": "n", "ty": {"k": "scalar", "s": "u32"}}]},
                         {"name": "Mib", "members": [{"name": "m", "ty": {"k": "array", "n": 65536, "e": F.VEC4}}]}],
@@ -821,7 +827,7 @@ def check_C10(tier, seed):
         cases.append({"id": "enc-" + name, "family": "encase-special", "S": S, "opts": F.opts(enc=True, mv="glam")})
     for i in range(30 if quick else 600):
         S, has_rt = F.role_shader(rng, big_arrays=False)
-        cases.append({"id": "enc-role-%04d" % i, "family": "encase-roles", "S": S, "opts": F.opts(enc=True, mv="glam", bmv=(i % 2 == 0), bmh=(i % 5 == 4))})
+        cases.append({"id": "enc-role-%04d" % i, "family": "encase-roles", "S": S, "opts": F.opts(enc=True, mv="glam", bmv=(i % 2 == 0), bmh=(i % 5 == 4), serde=(i % 7 == 3))})
     # structs with two roles: vertex input AND storage-bound (padding-free so that the bytemuck vertex derive accepts them)
     V2 = {"k": "vec", "n": 2, "s": "f32"}
     V4 = F.VEC4
